@@ -60,7 +60,7 @@ def plan(tier: str, seed: int) -> list[dict]:
                       "cfg": rng.choice(["samedir", "samedir", "sibling", "windows"]), "child": rng.choice(["descriptor", "descriptor", "embedded", "multi"])})
     for _ in range(40 * mult):
         cases.append({"k": "hdd-snapshots", "i": (i := i + 1), "depth": rng.choice([1, 2, 3, 4]), "top": rng.choice(["default", "explicit", "explicit"]),
-                      "nst": rng.choice([1, 1, 2, 3]), "plain": rng.random() < 0.3, "guid": rng.choice(["top", "top", "pick"])})
+                      "nst": rng.choice([1, 1, 2, 3]), "plain": rng.random() < 0.3, "guid": rng.choice(["top", "top", "pick"]), "linked": rng.random() < 0.3})
     for _ in range(40 * mult):
         cases.append({"k": "qcow2-chain", "i": (i := i + 1), "depth": rng.choice([1, 2, 2, 3]), "ext": rng.random() < 0.4,
                       "raw": rng.choice([None, "shorter", "ragged", "longer"]), "optout": rng.random() < 0.15})
@@ -120,7 +120,7 @@ def run(case: dict, ctx) -> dict:
     elif k == "vmdk-delta":
         o = call(chains.vmdk_delta, rng, ctx, depth=case["depth"], parent_config=case["cfg"], child_kind=case["child"])
     elif k == "hdd-snapshots":
-        o = call(chains.hdd_snapshots, rng, ctx, depth=case["depth"], top_mode=case["top"], nstorages=case["nst"], base_plain=case["plain"], open_guid=case["guid"])
+        o = call(chains.hdd_snapshots, rng, ctx, depth=case["depth"], top_mode=case["top"], nstorages=case["nst"], base_plain=case["plain"], open_guid=case["guid"], linked=case.get("linked", False))
     elif k == "qcow2-chain":
         o = call(chains.qcow2_chain, rng, ctx, depth=case["depth"], ext=case["ext"], raw_base=case["raw"], optout=case["optout"])
     else:
@@ -131,6 +131,8 @@ def run(case: dict, ctx) -> dict:
         res["viol"].append({"what": f"open failed on a resolvable chain: {o.brief()}", "mech": MECH, "detail": {"tb": o.tb}})
         return res
     op = o.value
+    if k == "hdd-snapshots":
+        res["cnt"]["hdd_linked_clone_cases"] = int(bool(op.info.get("linked_clone")))
     s, model = op.stream, op.model
     if s.size != model.size:
         res["viol"].append({"what": "size mismatch", "mech": MECH, "detail": {"got": s.size, "exp": model.size}})
